@@ -712,3 +712,56 @@ Lemma with_lock_same_schedule_serial :
   check_stream two_bodies (conn_proj 0 (trace (run (init lock_pool) ([0; 1] ++ alternating 16 14)))) = true
   /\ all_done (run (init lock_pool) ([0; 1] ++ alternating 16 14)) 2 = true.
 Proof. vm_compute. split; reflexivity. Qed.
+
+(* ================= frame property for concurrent dials ================= *)
+Lemma held_after_fst_false : forall h e m, fst (h m) = false -> is_lock m e = false -> fst (held_after h e m) = false.
+Proof.
+  intros h e m Hf Hl. destruct e; simpl in *; try assumption; unfold hupd;
+    destruct (N.eqb_spec m m0); subst; simpl; try assumption; try reflexivity.
+  rewrite N.eqb_refl in Hl. discriminate.
+Qed.
+
+Lemma dial_no_guarded_write : forall prot m t h,
+  disc prot h t = true -> fst (h m) = false -> no_excl m t = true ->
+  forallb (fun e => negb (writes_guarded prot m e)) t = true.
+Proof.
+  intros prot m. induction t as [|e t IH]; intros h D Hf N; [reflexivity|].
+  rewrite disc_cons in D. apply andb_true_iff in D. destruct D as [D1 D2].
+  simpl in N. apply andb_true_iff in N. destruct N as [N1 N2]. apply negb_true_iff in N1.
+  simpl. apply andb_true_iff. split.
+  - unfold writes_guarded. destruct e; simpl; try reflexivity.
+    + simpl in D1. destruct (prot (OConn k)) as [m'| |]; try reflexivity.
+      destruct (N.eqb_spec m' m); [|reflexivity]. subst m'. rewrite Hf in D1. simpl in D1. discriminate.
+    + destruct a; [reflexivity|]. simpl in D1. destruct (prot (OMem o)) as [m'| |]; try reflexivity.
+      destruct (N.eqb_spec m' m); [|reflexivity]. subst m'. rewrite Hf in D1. simpl in D1. discriminate.
+  - apply (IH (held_after h e)); [assumption | apply held_after_fst_false; assumption | assumption].
+Qed.
+
+Lemma run_events_in_prog : forall (p0 : pool) s c,
+  (forall i e, In e (thr c i) -> In e (p0 i)) -> (forall i e, In (i, e) (tr c) -> In e (p0 i)) ->
+  forall i e, In (i, e) (tr (run c s)) -> In e (p0 i).
+Proof.
+  intros p0. induction s as [|j s IH]; intros c T H; simpl; [assumption|].
+  apply IH; unfold step; destruct (thr c j) as [|e0 t] eqn:Ht; try assumption;
+    destruct (enabled (mu c) e0); try assumption; cbn [thr tr].
+  - intros i e. unfold pupd. destruct (Nat.eqb_spec i j); [|apply T].
+    subst. intros Hin. apply T. rewrite Ht. right. assumption.
+  - intros i e [E|Hin]; [|apply H; assumption]. inversion E; subst. apply T. rewrite Ht. left. reflexivity.
+Qed.
+
+(* Frame: if every goroutine obeys the discipline and none takes m exclusively (dial programs run under
+   RLock only), then under every schedule NO executed event writes an object guarded by m — whatever a
+   dial reads from the guarded state is written by no concurrent dial. *)
+Theorem dial_frame : forall prot m (p0 : pool) s,
+  (forall i, disc prot h0 (p0 i) = true) -> (forall i, no_excl m (p0 i) = true) ->
+  forall i e, In (i, e) (trace (run (init p0) s)) -> writes_guarded prot m e = false.
+Proof.
+  intros prot m p0 s D N i e Hin. unfold trace in Hin. apply in_rev in Hin.
+  assert (Hp : In e (p0 i)).
+  { apply (run_events_in_prog p0 s (init p0)); simpl; auto. intros ? ? []. }
+  pose proof (dial_no_guarded_write prot m (p0 i) h0 (D i) eq_refl (N i)) as F.
+  rewrite forallb_forall in F. apply negb_true_iff. apply F. assumption.
+Qed.
+
+Lemma ob_client_writes_excl_true : ob_client_writes_excl = true. Proof. vm_compute. reflexivity. Qed.
+Lemma ob_dial_frame_true : ob_dial_frame = true. Proof. vm_compute. reflexivity. Qed.
